@@ -11,10 +11,13 @@ MANIFEST = dict(
          "proved for the repaired one), GlobSet::matches = ascending duplicate-free indices of the individually "
          "matching globs (set_eq_members), GlobSet::is_match = some member matches (set_is_match_eq_exists), the parser is "
          "total and never panics, and on the text of every glob of the documented alternate-free syntax it yields the "
-         "documented tokens (parse_documented_syntax). Tie to the code: extracted "
+         "documented tokens (parse_documented_syntax), also with alternates `{a,b,...}` whose alternatives are such globs "
+         "(parse_documented_syntax_alt; an Alternates token followed by a rest matches iff one alternative followed by "
+         "the rest does; a lone `**` alternative is refuted by a witness). Tie to the code: extracted "
          "model vs globset (tokens, strategy, error kind via hooks; is_match of matcher and set on ALL paths over "
          "{a,b,.,/,-,A} up to length 5 plus random long/non-UTF-8 paths), plus an independent brace-expanding "
-         "backtracking matcher written from the documented syntax as oracle.",
+         "backtracking matcher written from the documented syntax as oracle; generated trees of the documented syntax "
+         "with alternates: the real parser on their text yields the tokens the theorem states.",
     note="trusted: Coq kernel, extraction, OCaml driver, Rust harness; regex-automata's reading of the emitted regex "
          "text (tmatch is its meaning, tested on every case), aho-corasick (all overlapping occurrences), the FNV "
          "hash map (association list), Vec sort/dedup; glob text is ASCII (non-ASCII glob characters are outside "
@@ -198,6 +201,213 @@ def gen_reqext_set(rng):
     paths = [pre + stem + ext for pre in (b"", b"a/", b"b/", b"a/b/") for stem in (b"a", b"b", b"ab", b"bb", b"b-b", b"")]
     paths += [b"a/b" + ext + b"/x", b"a/b"]
     return globs, paths
+
+
+# ----------------------------------------------------------------------------- documented syntax trees (kind 1204)
+# A tree of Spec/GlobSyntax.v (apiece/aitem/gpiece/gitem) as nested Python tuples; Coq renders it and states the
+# tokens (parse_documented_syntax_alt), the real parser is run on the rendered text.  The generator aims at
+# well-formed trees; Coq's aglob_ok is the judge (ill-formed trees are counted, never silently dropped).
+PLAIN = b"ab.-A!^]_ z"
+ESCD = b"ab,{}*?[]\\!.-"
+CLSC = b"ab.A/!^*?{,"
+
+
+def gen_gitem(rng, prev_star):
+    k = rng.randint(0, 9)
+    if k <= 3:
+        return (0, rng.choice(PLAIN))
+    if k == 4:
+        return (1, rng.choice(ESCD))
+    if k == 5:
+        return (2,)
+    if k in (6, 7):
+        return (0, rng.choice(PLAIN)) if prev_star else (3,)
+    if k == 8:
+        ms = []
+        for i in range(rng.randint(1, 3)):
+            lo = rng.choice(b"ab.A*?{,/" if i == 0 else CLSC)
+            hi = lo if rng.random() < 0.6 else rng.choice([c for c in CLSC if c >= lo])
+            ms.append((lo, hi))
+        return (4, ms)
+    return (0, rng.choice(PLAIN))
+
+
+def gen_gcomp(rng):
+    its = []
+    for _ in range(rng.randint(1, 3)):
+        its.append(gen_gitem(rng, bool(its) and its[-1] == (3,)))
+    return its
+
+
+def gen_gpieces(rng, lone_dstar_ok):
+    n = rng.randint(1, 3)
+    ps = []
+    for _ in range(n):
+        if rng.random() < 0.3 and not (ps and ps[-1] == (1,)):
+            ps.append((1,))
+        else:
+            ps.append((0, gen_gcomp(rng)))
+    if ps == [(1,)] and not lone_dstar_ok:
+        ps = [(0, gen_gcomp(rng)), (1,)]
+    return ps
+
+
+def gen_aglob(rng):
+    ps = []
+    for _ in range(rng.randint(1, 3)):
+        if rng.random() < 0.25 and not (ps and ps[-1] == (1,)):
+            ps.append((1,))
+            continue
+        its = []
+        for _ in range(rng.randint(1, 3)):
+            if rng.random() < 0.4:
+                bs = []
+                for _ in range(rng.randint(1, 3)):
+                    bs.append([] if rng.random() < 0.2 else gen_gpieces(rng, rng.random() < 0.04))
+                its.append((1, bs))
+            elif rng.random() < 0.08:
+                its.append((2,))                      # a ',' outside braces
+            else:
+                it = gen_gitem(rng, bool(its) and its[-1] == (0, (3,)))
+                its.append((0, it))
+        ps.append((0, its))
+    return ps
+
+
+SYNTAX_CORPUS = [
+    [(0, [(1, [[(0, [(0, 97)])], [(0, [(0, 98)])]])])],                                   # {a,b}
+    [(0, [(1, [[]])])],                                                                   # {}
+    [(0, [(1, [[], []])])],                                                               # {,}
+    [(0, [(0, (3,)), (0, (0, 46)), (1, [[(0, [(0, 114), (0, 115)])], [(0, [(0, 99)])], []])])],   # *.{rs,c,}
+    [(1,), (0, [(1, [[(1,), (0, [(0, 97)])], [(0, [(0, 98)]), (1,)], [(0, [(0, 99)]), (1,), (0, [(0, 100)])]])]), (1,)],
+    # **/{**/a,b/**,c/**/d}/**
+    [(0, [(0, (0, 120)), (1, [[(0, [(1, 44)])], [(0, [(1, 123), (3,)])]]), (0, (3,))])],  # x{\,,\{*}*
+    [(0, [(0, (0, 97)), (2,), (1, [[(0, [(0, 98)])], [(0, [(1, 44)])]]), (2,), (0, (3,))])],  # a,{b,\,},*
+    [(0, [(1, [[(1,)], [(0, [(0, 98)])]])])],                                             # {**,b}: lone `**` (not ok)
+]
+
+
+def enc_gitem(i):
+    if i[0] in (0, 1):
+        return vlist([str(i[0]), str(i[1])])
+    if i[0] in (2, 3):
+        return vlist([str(i[0])])
+    return vlist(["4", vlist([vlist([str(lo), str(hi)]) for lo, hi in i[1]])])
+
+
+def enc_gpiece(p):
+    return vlist(["1"]) if p[0] == 1 else vlist(["0", vlist([enc_gitem(i) for i in p[1]])])
+
+
+def enc_aitem(i):
+    if i[0] == 0:
+        return vlist(["0", enc_gitem(i[1])])
+    if i[0] == 2:
+        return vlist(["2"])
+    return vlist(["1", vlist([vlist([enc_gpiece(p) for p in b]) for b in i[1]])])
+
+
+def enc_aglob(g):
+    return vlist([vlist(["1"]) if p[0] == 1 else vlist(["0", vlist([enc_aitem(i) for i in p[1]])]) for p in g])
+
+
+def tree_stats(g):
+    """(number of alternations, has an empty alternative, has `**` inside an alternative, has a lone `**` alternative)"""
+    n = empty = dstar = lone = 0
+    for p in g:
+        if p[0] == 1:
+            continue
+        for i in p[1]:
+            if i[0] == 1:
+                n += 1
+                for b in i[1]:
+                    empty |= (len(b) == 0)
+                    dstar |= any(q[0] == 1 for q in b)
+                    lone |= (len(b) == 1 and b[0][0] == 1)
+    return n, empty, dstar, lone
+
+
+def check_syntax(ctx, cases):
+    """kind 1204: the statement of parse_documented_syntax_alt on the real parser.  model side: well-formedness,
+    text and stated tokens of the tree (Spec), and the model parser on the text; code side: kind 1201 on the text."""
+    lines = [vlist([str(o), enc_aglob(g)]) for o, g in cases]
+    mo = vlib.model(1204, lines)
+    texts = []
+    for (o, g), line, m in zip(cases, lines, mo):
+        if bad(m):
+            viol(ctx, "model failure on a documented-syntax tree: %s" % m[:30], dict(kind=1204, opts=o, tree=g, line=line))
+            texts.append(None)
+            continue
+        texts.append(bytes(bitsval(parse_val(m)[2])))
+    idx = [i for i, t in enumerate(texts) if t is not None]
+    co = vlib.code(1201, [vlist([str(cases[i][0]), vbytes(texts[i])]) for i in idx])
+    cov = ctx.cov
+    for i, c in zip(idx, co):
+        (o, g), line, text = cases[i], lines[i], texts[i]
+        mv = parse_val(mo[i])
+        ok, ok_doc, stated, mparse = mv[0] == 1, mv[1] == 1, mv[3], mv[4]
+        nalt, empty, dstar, lone = tree_stats(g)
+        cov["syntax_trees"] = cov.get("syntax_trees", 0) + 1
+        rep = dict(kind=1204, opts=o, glob=text.decode("latin1"), tree=g, line=line, model=mo[i], code=c)
+        if bad(c):
+            viol(ctx, "globset panicked or harness failed on the text of a documented-syntax tree: %s" % c, rep)
+            continue
+        cv = parse_val(c)
+        ctoks = cv[1] if cv[0] == 0 else None
+        if not ok:
+            # outside the theorem (generator slip or the deliberate lone `**` alternative): counted, not judged
+            key = "syntax_trees_lone_dstar_alternative" if (ok_doc and lone) else "syntax_trees_ill_formed"
+            cov[key] = cov.get(key, 0) + 1
+            if ok_doc and lone and ctoks == stated:
+                cov["lone_dstar_read_as_documented"] = cov.get("lone_dstar_read_as_documented", 0) + 1
+            ctx.note_case(line, False)
+            continue
+        cov["syntax_trees_well_formed"] = cov.get("syntax_trees_well_formed", 0) + 1
+        for k, f in (("with_alternates", nalt > 0), ("with_two_or_more_alternations", nalt > 1),
+                     ("with_empty_alternative", empty), ("with_dstar_in_alternative", dstar),
+                     ("with_comma_outside_braces", any(i[0] == 2 for q in g if q[0] == 0 for i in q[1]))):
+            if f:
+                cov["syntax_trees_" + k] = cov.get("syntax_trees_" + k, 0) + 1
+        ctx.note_case(line, nalt > 0)
+        if o & 4 == 0:
+            continue          # backslash_escape off: outside the theorem's hypothesis (only generated with it on)
+        if ctoks != stated:
+            viol(ctx, "the parser does not yield the documented tokens on a glob of the documented syntax with "
+                      "alternates (theorem parse_documented_syntax_alt no longer describes the code)",
+                 dict(rep, stated=repr(stated), code_tokens=repr(ctoks)))
+        if mparse[0] != 0 or mparse[1] != stated:
+            viol(ctx, "model parser disagrees with the proved statement parse_documented_syntax_alt (stale build?)",
+                 rep, nfi=True)
+
+
+def alt_stats(g, bsesc):
+    """(number of `{` outside classes/escapes, maximal nesting depth) of a glob text"""
+    i, n, depth, maxd, groups = 0, len(g), 0, 0, 0
+    while i < n:
+        c = g[i]
+        if c == 0x5c and bsesc:
+            i += 2
+            continue
+        if c == 0x5b:
+            j = i + 1
+            if j < n and g[j] in b"!^":
+                j += 1
+            if j < n and g[j] == 0x5d:
+                j += 1
+            while j < n and g[j] != 0x5d:
+                j += 1
+            if j >= n:
+                break
+            i = j + 1
+            continue
+        if c == 0x7b:
+            depth += 1
+            groups += 1
+            maxd = max(maxd, depth)
+        elif c == 0x7d:
+            depth = max(0, depth - 1)
+        i += 1
+    return groups, maxd
 
 
 def gen_opts(rng):
@@ -391,6 +601,8 @@ def check_glob(ctx, cases, L, extras):
         if cv[0] == 1:
             ctx.note_case(line, False)
             ctx.cov["rejected_globs"] = ctx.cov.get("rejected_globs", 0) + 1
+            if alt_stats(g, o & 4)[1] >= 2:
+                ctx.cov["glob_cases_nested_alternates_rejected"] = ctx.cov.get("glob_cases_nested_alternates_rejected", 0) + 1
             continue
         m_re, m_st = bitsval(mv[1]), bitsval(mv[2])
         c_re, c_set, c_setm = bitsval(cv[1]), bitsval(cv[2]), bitsval(cv[3])
@@ -398,6 +610,8 @@ def check_glob(ctx, cases, L, extras):
         nm = sum(unpack(c_re, n))
         ctx.note_case(line, 0 < nm < n)
         ctx.cov["path_evaluations"] = ctx.cov.get("path_evaluations", 0) + n
+        if alt_stats(g, o & 4)[0]:
+            ctx.cov["accepted_globs_with_alternates"] = ctx.cov.get("accepted_globs_with_alternates", 0) + 1
         if 0 < nm < n:
             ctx.sample(dict(opts=o, glob=g.decode("latin1"), matching_paths=nm, of=n,
                             example=next(paths[i].decode("latin1") for i, b in enumerate(unpack(c_re, n)) if b)))
@@ -423,6 +637,13 @@ def check_glob(ctx, cases, L, extras):
         # the documented syntax: independent oracle vs code
         if oracle is not None:
             ctx.cov["oracle_globs"] = ctx.cov.get("oracle_globs", 0) + 1
+            groups, depth = alt_stats(g, o & 4)
+            if groups:
+                ctx.cov["oracle_globs_with_alternates"] = ctx.cov.get("oracle_globs_with_alternates", 0) + 1
+            if groups >= 2:
+                ctx.cov["oracle_globs_with_two_or_more_alternations"] = ctx.cov.get("oracle_globs_with_two_or_more_alternations", 0) + 1
+            if depth >= 2:   # cannot happen: nesting is an error of the parser (NestedAlternates), kept as a tripwire
+                ctx.cov["oracle_globs_with_nested_alternates"] = ctx.cov.get("oracle_globs_with_nested_alternates", 0) + 1
             d = first_diff(oracle, c_re, n, paths)
             if d:
                 viol(ctx, "glob does not mean what the documented syntax says (independent matcher disagrees "
@@ -515,6 +736,13 @@ def run(ctx):
     check_glob(ctx, corpus, 4, extras)
     gen = [(gen_opts(rng), gen_glob(rng)) for _ in range(ctx.count(900))]
     check_glob(ctx, gen, 5, extras)
+    # --- 1204: trees of the documented syntax with alternates (the statement of parse_documented_syntax_alt)
+    trees = [(o, g) for g in SYNTAX_CORPUS for o in (4, 6, 12, 15)]
+    trees += [(rng.choice([4, 6, 6, 12, 14, 5, 15]), gen_aglob(rng)) for _ in range(ctx.count(600))]
+    for k in ("oracle_globs_with_alternates", "oracle_globs_with_two_or_more_alternations",
+              "oracle_globs_with_nested_alternates", "glob_cases_nested_alternates_rejected"):
+        ctx.cov.setdefault(k, 0)
+    check_syntax(ctx, trees)
     # --- 1203: sets
     sets = []
     for _ in range(ctx.count(250)):
@@ -573,6 +801,8 @@ def replay(ctx, data):
         check_parse(ctx, [(r["opts"], r["glob"].encode("latin1"))])
     elif k == 1202:
         check_glob(ctx, [(r["opts"], r["glob"].encode("latin1"))], r["L"], [bytes.fromhex(x) for x in r["extras"]])
+    elif k == 1204:
+        check_syntax(ctx, [(r["opts"], r["tree"])])
     elif k == 1203:
         check_set(ctx, [[(o, g.encode("latin1")) for o, g in r["globs"]]], r["L"], [bytes.fromhex(x) for x in r["extras"]])
     elif k == "cli-d3":
